@@ -25,11 +25,12 @@ func mkCert(cn string) (tls.Certificate, *x509.Certificate) {
 		panic(err)
 	}
 	tmpl := &x509.Certificate{
-		SerialNumber:          big.NewInt(time.Now().UnixNano()),
-		Subject:               pkix.Name{CommonName: cn},
-		DNSNames:              []string{cn, "localhost", "127.0.0.1"},
-		NotBefore:             time.Now().Add(-time.Hour),
-		NotAfter:              time.Now().Add(10 * 365 * 24 * time.Hour),
+		SerialNumber: big.NewInt(int64(len(cn)) + 42),
+		Subject:      pkix.Name{CommonName: cn},
+		DNSNames:     []string{cn, "localhost", "127.0.0.1"},
+		// synctest bubbles start their fake clock at 2000-01-01
+		NotBefore:             time.Date(1990, 1, 1, 0, 0, 0, 0, time.UTC),
+		NotAfter:              time.Date(2090, 1, 1, 0, 0, 0, 0, time.UTC),
 		KeyUsage:              x509.KeyUsageDigitalSignature | x509.KeyUsageCertSign,
 		ExtKeyUsage:           []x509.ExtKeyUsage{x509.ExtKeyUsageServerAuth},
 		BasicConstraintsValid: true,
@@ -56,13 +57,14 @@ func tlsInit() {
 // ServerTLSConfig is the harness server certificate (trusted by ClientTLSConfig).
 func ServerTLSConfig() *tls.Config {
 	tlsInit()
-	return &tls.Config{Certificates: []tls.Certificate{tlsCert}}
+	// no session tickets: they would sit unread in the lock-step client's queue
+	return &tls.Config{Certificates: []tls.Certificate{tlsCert}, SessionTicketsDisabled: true}
 }
 
 // UntrustedServerTLSConfig presents a certificate the client does not trust.
 func UntrustedServerTLSConfig() *tls.Config {
 	tlsInit()
-	return &tls.Config{Certificates: []tls.Certificate{otherCert}}
+	return &tls.Config{Certificates: []tls.Certificate{otherCert}, SessionTicketsDisabled: true}
 }
 
 // ClientTLSConfig trusts the harness certificate only.
